@@ -83,8 +83,9 @@ Qed.
 (* same symmetry: the code uses the group itself *)
 Definition same_sym_ok (g : gobs) : bool :=
   kset_equiv (g_elems g) (needed_set KOps (g_elems g) (g_elems g)).
-(* two symmetries: the code uses unique (G1 . G2) *)
-Definition code_set (G1 G2 : list krot) : list krot := kdedup (product_set KOps G1 G2).
+(* two symmetries (G1 = symmetry of self, G2 = symmetry of other): the code uses
+   _get_unique_symmetry_elements(other.symmetry, self.symmetry) = unique (G2 . G1) *)
+Definition code_set (G1 G2 : list krot) : list krot := kdedup (product_set KOps G2 G1).
 Definition two_sym_ok (g h : gobs) : bool :=
   if String.eqb (g_name g) (g_name h) then true
   else kset_equiv (code_set (g_elems g) (g_elems h)) (needed_set KOps (g_elems g) (g_elems h)).
@@ -94,14 +95,10 @@ Definition two_sym_failing : list (string * string) :=
 Lemma all_same_sym_ok : forallb same_sym_ok groups = true.
 Proof. vm_compute. reflexivity. Qed.
 
-(* the ordered pairs on which the two-symmetry set condition fails are exactly
-   (trigonal or hexagonal) x cubic, in either order *)
-Definition hexlike (g : gobs) : bool :=
-  (String.eqb (g_system g) "trigonal" || String.eqb (g_system g) "hexagonal")%bool.
-Definition cubic (g : gobs) : bool := String.eqb (g_system g) "cubic".
-Definition two_sym_bad (g h : gobs) : bool := (hexlike g && cubic h) || (cubic g && hexlike h).
+(* one row of the exhaustive 38 x 38 decision: for the i-th group g, the set
+   the code uses with every other group h is the needed one *)
 Definition two_sym_row (i : nat) : bool :=
   match nth_error groups i with
-  | Some g => forallb (fun h => Bool.eqb (two_sym_ok g h) (negb (two_sym_bad g h))) groups
+  | Some g => forallb (fun h => two_sym_ok g h) groups
   | None => true
   end.
